@@ -48,6 +48,7 @@ type Plan struct {
 	Atom    *AtomPlan   `json:"atom,omitempty"`
 	Net     *NetPlan    `json:"net,omitempty"`
 	Sync    *SyncPlan   `json:"sync,omitempty"`
+	Srv     *SrvPlan    `json:"srv,omitempty"` // server mode (Tier B, srvnet.go): whole network.Server instances
 	// C06: after the main run, a validly signed header with a wrong PrevStateRoot is recorded ahead of the blocks
 	HeadersFirst bool `json:"headers_first,omitempty"`
 	KnownHeader  bool `json:"known_header,omitempty"` // C06: genuine header recorded ahead of the block, block with another witness
@@ -161,8 +162,14 @@ func (Engine) drawPlan(rt *rapid.T, prop, tier string) any {
 	case "C06":
 		return drawC06(rt, p, tier)
 	case "C19", "C07", "C17":
+		if srvWanted(rt, prop) {
+			return drawSrv(rt, p, prop, tier)
+		}
 		return drawNet(rt, p, prop, tier)
 	case "C20":
+		if srvWanted(rt, prop) {
+			return drawSrv(rt, p, prop, tier)
+		}
 		return drawSync(rt, p, tier)
 	}
 	if prop == "C11" {
@@ -266,6 +273,11 @@ func (Engine) Run(t *testing.T, prop string, planAny any) *sim.Outcome {
 				panic(x)
 			}
 		}()
+		switch {
+		case plan.Srv != nil:
+			r.runSrv()
+			return
+		}
 		switch prop {
 		case "C02":
 			r.runC02()
